@@ -47,7 +47,7 @@ def plan(tier, seed):
 def required(tier):
     return {"gibbs_vectors": 2000, "mh_vectors": 2000, "mh_db_edges": 3000, "swap_pairs_checked": 1000, "swap_m1_checked": 100,
             "gibbs_unbalanced": 200, "gibbs_with_children": 300, "gibbs_with_parents": 300, "vectors_lambda": 100,
-            "swap_unequal_reads": 100, "vectors_error_zero": 100, "scenarios_seen": 12}
+            "swap_unequal_reads": 100, "vectors_error_zero": 100, "scenarios_seen": 12, "gibbs_hexaploid": 100}
 
 
 class NpProxy:
@@ -138,8 +138,16 @@ def check_instance(I, rng, col, inst_id, tier, n_states=None, states_override=No
                 nontriv = has_child[t] or has_parent[t]
                 col.case("G|%d|%s|%d|%d" % (inst_id, st.tolist(), t, k), nontrivial=nontriv)
                 s0 = st.copy()
-                got = K.gibbs(s0, t, k, cache)
+                try:
+                    got = K.gibbs(s0, t, k, cache)
+                except Exception as ex:  # noqa: BLE001
+                    col.count("gibbs_vectors")
+                    viol("gibbs-kernel-raises", "gibbs_probabilities raised %r for sample %d position %d [%s; ploidy %s tau %s]; exact conditional %s"
+                         % (ex, t, k, I["name"], I["ploidy"].tolist(), I["tau"][t].tolist(), np.round(want, 6).tolist()), st, {"t": t, "k": k})
+                    continue
                 col.count("gibbs_vectors")
+                if int(I["ploidy"][t]) >= 6:
+                    col.count("gibbs_hexaploid")
                 if unbalanced[t]:
                     col.count("gibbs_unbalanced")
                 if has_child[t]:
